@@ -1,3 +1,4 @@
+\* simulation constants for the lockstep replay (Ver, Kinds, StartAtL1 and the Fix switches are rewritten per run by checks/G08.py)
 CONSTANTS NSubs = 4 NConn = 2 InitLen = 2 MaxLen = 6 MaxTag = 12 MaxReverts = 4 MaxL1 = 3 MaxPc = 5 MaxTx = 8 MaxGw = 4 MaxRecv = 2 MaxTicks = 3
   MaxBack = 1024 MaxGot = 24 Ver = 10 Kinds <- KAll StartAtL1 = 0 NoLag = FALSE QuietSub = FALSE ReorgPrio = FALSE TeeStage = FALSE Window = TRUE FixL1None = FALSE FixL1Order = FALSE
   MaxSteps = 90
